@@ -207,7 +207,16 @@ def apply_real(app, op):
             return 'ok'
         if kind == 'route':
             spec = list(op[2]) if isinstance(op[2], tuple) else op[2]
-            app.route(rule, spec, make_handler(app, hid_of(op)), overwrite=op[3])
+            h = make_handler(app, hid_of(op))
+            if spec in ('POST', 'HEAD'):
+                # the verb shortcuts (app.post(rule, handler) / the decorator form) are the same registration
+                short = getattr(app, spec.lower())
+                if op[3]:
+                    short(rule, overwrite=True)(h)
+                else:
+                    short(rule, h)
+                return 'ok'
+            app.route(rule, spec, h, overwrite=op[3])
             return 'ok'
         route = app.router[{rule}]
         if route is None:
